@@ -109,6 +109,11 @@ type connection struct {
 }
 
 func (c *connection) Close() error {
+	// readLoop may be waiting to hand over a packet; closing the net.Conn
+	// does not wake it up.
+	if t, ok := c.transport.(interface{ abandon() }); ok {
+		t.abandon()
+	}
 	return c.sshConn.conn.Close()
 }
 
